@@ -12,7 +12,7 @@ from tools.vlib import hx
 
 ID = "C10"
 LEVEL = "proof"
-DRIVER = {"srcs": ["harness/c10_driver.cc"], "sdk": False}
+DRIVER = {"srcs": ["harness/c10_driver.cc", "harness/c10_purity.cc"], "sdk": False}
 
 # Two builds of the same driver.  Everything runs on the ASan/UBSan build - except the cases written with ATP
 # (Attach of a temporary Context, stale-token histories): under ASan freed memory is quarantined, so a freed DataList
@@ -72,20 +72,35 @@ if rcs:
 
 
 def build_driver():
-    san = vlib.build_driver("c10_driver", DRIVER["srcs"], sdk=False)
-    plain = vlib.build_driver("c10_driver_plain", DRIVER["srcs"], sdk=False, variant="plain")
+    from tools import purity
+    srcs = ["harness/c10_driver.cc"]
+    san = vlib.build_driver("c10_driver", srcs, sdk=False)
+    plain = vlib.build_driver("c10_driver_plain", srcs, sdk=False, variant="plain")
     w = san + "_dispatch_%s.py" % os.path.basename(plain)[-8:]
     text = WRAPPER % (san, plain)
     if not os.path.exists(w) or open(w).read() != text:
         with open(w, "w") as f:
             f.write(text)
         os.chmod(w, os.stat(w).st_mode | stat.S_IXUSR | stat.S_IXGRP | stat.S_IXOTH)
-    return w
+    # PURITY lines go to the ThreadSanitizer probe (clang++, one process per line), everything else to the wrapper above
+    probe = purity.build_probe("c10_purity", ["harness/c10_purity.cc"])
+    return purity.make_dispatcher("c10_dispatch", w, probe)
+
+
+def purity_cases(tier):
+    # PURITY <bindings of the shared parent context> <threads> <rounds (fresh shared objects each)> <iterations of every op per round>
+    k = 1 if tier == "quick" else 6
+    return ["PURITY 0 4 %d 3" % (150 * k), "PURITY 1 4 %d 3" % (150 * k), "PURITY 7 4 %d 3" % (150 * k), "PURITY 23 3 %d 2" % (100 * k)]
 
 
 TRIVIAL_TAGS = {"empty"}
 IMPL_TIMEOUT = 300     # a broken unwinding loop in Detach never terminates: report it instead of waiting half an hour
 ASSUMPTIONS = [
+    "immutability of shared Context values across threads and the per-thread nature of the runtime stack are NOT theorems about the C++: they are "
+    "probed at run time on every check by harness/c10_purity.cc (clang ThreadSanitizer build; 3-4 real threads released by a barrier run GetValue/HasKey "
+    "on present/shadowed/absent keys, SetValue/SetValues children of one SHARED parent, copies/destruction, GetSpan/SetSpan, and each its own "
+    "attach / nested Scope / out-of-order detach program - checking after every step that GetCurrent is what its OWN program says - plus tokens of "
+    "other threads handed to Detach and destroyed; clauses purity:data_race, purity:result_differs)",
     "thread_local gives every thread its own Stack object (language guarantee): the model keeps one world per thread; "
     "isolation is a theorem about that model and is evidenced on the implementation by 2-4 real concurrent threads per "
     "threaded case, each compared against its own model instance",
@@ -551,7 +566,7 @@ PATTERNS = ["lifo", "bottom", "middle", "fifo", "random", "regrow", "leave"]
 
 def gen(rng, tier):
     n = 3 if tier == "quick" else 40
-    cases = []
+    cases = purity_cases(tier)
     cases.append("")
     cases += f20_cases(rng)
     # stale tokens over temporaries: the same history once on the ASan build (ATT) and once on the plain build (ATP)
@@ -591,6 +606,8 @@ CREATING = ("SV", "RSV", "RSVC", "NEW1", "SSP", "SVS", "NEW", "AT", "ATC", "SC",
 
 
 def shrink(case):
+    if case.startswith("PURITY"):
+        return
     segs = [[o.strip() for o in s.split(";") if o.strip()] for s in case.split("|")]
     join = lambda ss: " | ".join(" ; ".join(s) for s in ss)
     # fewer threads
@@ -612,7 +629,10 @@ LEVEL_TEXT = ("Theorems in coq/Properties_C10.v about the Gallina model of conte
               "exact (length, bytes) key comparison, refinement of the array stack to a list across every reallocation, detach at the "
               "top / out of order / foreign, balanced sequences, scope release, thread isolation, and model_meets_spec for the checker "
               "that is also run on the implementation's observations.  The model is tied to the C++ on every run by running the extracted "
-              "model and the rebuilt ASan/UBSan driver (real threads) on the same generated programs.")
+              "model and the rebuilt ASan/UBSan driver (real threads) on the same generated programs; stale-token histories over temporary "
+              "contexts additionally run on a driver built without sanitizers, where the allocator reuses freed addresses.  The sharing assumptions "
+              "(immutable Context values read/derived/copied from several threads, strictly per-thread runtime stack) are probed at run time by a "
+              "ThreadSanitizer build (PURITY cases) - a probe, not a theorem.")
 LEVEL_NOTE = ("Trusted: Coq kernel, extraction, ocaml/driver.ml, the C++ driver, the generator, tools/extract_consts.py (kSpanKey); the model is "
               "hand-written (tied by correspondence, not verified against C++ semantics); thread_local isolation is a language guarantee mirrored "
               "by the model's one-world-per-thread structure; memory safety is evidenced by sanitizers, not proved.")
